@@ -41,6 +41,7 @@ def gen(i, R, tier):
     swarm = {
         "set_policy": sw.choice(("mixed", "insertion")),
         "walk_policy": sw.choice(("shuffled", "reversed", "sorted")),
+        "dot_root": sw.random() < 0.12,
         "channels": sw.sample(("yml", "cli", "gitignore"), sw.randint(0, 2)),
         "bad_contents": sw.random() < 0.6,
         # the differential needs no model of pattern semantics, so a share of runs uses
